@@ -317,8 +317,10 @@ def _emit_evidence(mod, tier, seed, cov, wall, nviol):
         "wall_s": round(wall, 3),
         "violations": nviol,
     }
-    os.makedirs(os.path.join(VERIF, "evidence"), exist_ok=True)
-    path = os.path.join(VERIF, "evidence", f"{mod.ID}.json")
+    # VERIF_SCRATCH redirects evidence and shrunk replays (runs against seeded changes must not touch the committed evidence)
+    edir = os.path.join(os.environ["VERIF_SCRATCH"], "evidence") if os.environ.get("VERIF_SCRATCH") else os.path.join(VERIF, "evidence")
+    os.makedirs(edir, exist_ok=True)
+    path = os.path.join(edir, f"{mod.ID}.json")
     tmp = path + ".tmp"
     with open(tmp, "w") as f:
         json.dump(ev, f, indent=1, sort_keys=True, default=str)
@@ -442,7 +444,7 @@ def run_check(mod, tier):
             note_violation(sig, v["message"], v["case"], v["count"])
 
     # 3. shrink + report new signatures
-    outdir = os.path.join(VERIF, "out", mod.ID)
+    outdir = os.path.join(os.environ.get("VERIF_SCRATCH") or VERIF, "out", mod.ID)
     lines = []
     max_evals = int(budget.get("shrink_evals", 200 if tier == "quick" else 3000))
     max_report = int(budget.get("max_report", 25))
